@@ -10,11 +10,11 @@ P = "internal.DKGProposalParticipant"
 phases = [
  # name, request type, data field in request, data field in participant, await, confirmed, error, validate fn, timeout evt, error evt, confirmed evt, next await
  dict(uv="unconfirmedParticipants", n="Commit", req="DKGProposalCommitConfirmationRequest", rf="Commit", pf="DkgCommit", aw="CommitAwaitConfirmation", ok="CommitConfirmed", er="CommitConfirmationError",
-      act="actionCommitConfirmationReceived", val="actionValidateDkgProposalAwaitCommits", tmo="eventDKGCommitsConfirmationCancelByTimeoutInternal", cerr="eventDKGCommitsConfirmationCancelByErrorInternal", conf="eventDKGCommitsConfirmedInternal", nxt="DealAwaitConfirmation", errevt="EventDKGCommitConfirmationError"),
+      act="actionCommitConfirmationReceived", val="actionValidateDkgProposalAwaitCommits", tmo="eventDKGCommitsConfirmationCancelByTimeoutInternal", cerr="eventDKGCommitsConfirmationCancelByErrorInternal", conf="eventDKGCommitsConfirmedInternal", nxt="DealAwaitConfirmation", rt="DKGProposalCommitParticipantResponse", errevt="EventDKGCommitConfirmationError"),
  dict(uv="unconfirmedDealsParticipants", n="Deal", req="DKGProposalDealConfirmationRequest", rf="Deal", pf="DkgDeal", aw="DealAwaitConfirmation", ok="DealConfirmed", er="DealConfirmationError",
-      act="actionDealConfirmationReceived", val="actionValidateDkgProposalAwaitDeals", tmo="eventDKGDealsConfirmationCancelByTimeoutInternal", cerr="eventDKGDealsConfirmationCancelByErrorInternal", conf="eventDKGDealsConfirmedInternal", nxt="ResponseAwaitConfirmation", errevt="EventDKGDealConfirmationError"),
+      act="actionDealConfirmationReceived", val="actionValidateDkgProposalAwaitDeals", tmo="eventDKGDealsConfirmationCancelByTimeoutInternal", cerr="eventDKGDealsConfirmationCancelByErrorInternal", conf="eventDKGDealsConfirmedInternal", nxt="ResponseAwaitConfirmation", rt="DKGProposalDealParticipantResponse", errevt="EventDKGDealConfirmationError"),
  dict(uv="unconfirmedParticipants", n="Response", req="DKGProposalResponseConfirmationRequest", rf="Response", pf="DkgResponse", aw="ResponseAwaitConfirmation", ok="ResponseConfirmed", er="ResponseConfirmationError",
-      act="actionResponseConfirmationReceived", val="actionValidateDkgProposalAwaitResponses", tmo="eventDKGResponseConfirmationCancelByTimeoutInternal", cerr="eventDKGResponseConfirmationCancelByErrorInternal", conf="eventDKGResponsesConfirmedInternal", nxt="MasterKeyAwaitConfirmation", errevt="EventDKGResponseConfirmationError"),
+      act="actionResponseConfirmationReceived", val="actionValidateDkgProposalAwaitResponses", tmo="eventDKGResponseConfirmationCancelByTimeoutInternal", cerr="eventDKGResponseConfirmationCancelByErrorInternal", conf="eventDKGResponsesConfirmedInternal", nxt="MasterKeyAwaitConfirmation", rt="DKGProposalResponseParticipantResponse", errevt="EventDKGResponseConfirmationError"),
  dict(uv="unconfirmedParticipants", n="MasterKey", req="DKGProposalMasterKeyConfirmationRequest", rf="MasterKey", pf="DkgMasterKey", aw="MasterKeyAwaitConfirmation", ok="MasterKeyConfirmed", er="MasterKeyConfirmationError",
       act="actionMasterKeyConfirmationReceived", val="actionValidateDkgProposalAwaitMasterKey", tmo="eventDKGMasterKeyConfirmationCancelByTimeoutInternal", cerr="eventDKGMasterKeyConfirmationCancelByErrorInternal", conf="eventDKGMasterKeyConfirmedInternal", nxt=None, errevt="EventDKGMasterKeyConfirmationError"),
 ]
@@ -148,6 +148,11 @@ for ph in phases:
 //@   loop 0 invariant %(uv)s == len(dkgQ(m.payload)) - cntSt($visited, vals(dkgQ(m.payload)), fieldmap(internal.DKGProposalParticipant.Status), internal.%(ok)s)
 //@   loop 1 invariant forall k int :: k in $visited ==> dkgQ(m.payload)[k].Status == internal.%(nxt)s
 //@   loop 1 invariant unchanged("*internal.DumpedMachineStatePayload", "*internal.DKGConfirmation", "*internal.SignatureConfirmation", "map[int]*internal.DKGProposalParticipant", internal.DKGProposalParticipant.DkgCommit, internal.DKGProposalParticipant.DkgDeal, internal.DKGProposalParticipant.DkgResponse, internal.DKGProposalParticipant.DkgMasterKey, internal.DKGProposalParticipant.Error, internal.DKGProposalParticipant.Username, "[]byte")
+//@   ensures[C08.resp.ordered] outEvent == %(conf)s ==> istype(response, responses.%(rt)s) && len(response.(responses.%(rt)s)) <= len(dkgQ(m.payload)) && (forall a int, b int :: 0 <= a && a < b && b < len(response.(responses.%(rt)s)) ==> response.(responses.%(rt)s)[a].ParticipantId < response.(responses.%(rt)s)[b].ParticipantId)
+//@   loop 2 invariant len(responseData) <= $i + 1 && len($range) == len(dkgQ(m.payload))
+//@   loop 2 invariant forall a int :: 0 <= a && a < len(responseData) ==> responseData[a] != nil && ($i >= 0 && responseData[a].ParticipantId <= $range[$i].ParticipantID)
+//@   loop 2 invariant forall a int, b int :: 0 <= a && a < b && b < len(responseData) ==> responseData[a].ParticipantId < responseData[b].ParticipantId
+//@   loop 2 invariant forall a int, b int :: 0 <= a && a < b && b < len($range) ==> $range[a].ParticipantID < $range[b].ParticipantID
 //@   loop 2 invariant forall k int :: k in dkgQ(m.payload) ==> dkgQ(m.payload)[k].Status == internal.%(nxt)s
 //@   loop 2 invariant unchanged("*internal.DumpedMachineStatePayload", "*internal.DKGConfirmation", "*internal.SignatureConfirmation", "map[int]*internal.DKGProposalParticipant", internal.DKGProposalParticipant.DkgCommit, internal.DKGProposalParticipant.DkgDeal, internal.DKGProposalParticipant.DkgResponse, internal.DKGProposalParticipant.DkgMasterKey, internal.DKGProposalParticipant.Error, internal.DKGProposalParticipant.Username, "[]byte")
 """ % ph)
